@@ -165,8 +165,8 @@ def run(ctx):
     ctx.ok("C16.5", "all other writes to module-level objects happen in import-time code", "a5/",
            f"{n_import} write sites in functions not reachable from the API (module bodies, generate_origins, CRS.__init__, ...): "
            f"serialised by the import lock, complete before any API call")
-    ctx.floor("shared containers written from API-reachable code (caches, admitted or not)", len(caches) + len({b.name for b in bad}), 3)
-    ctx.floor("functions whose summary mutates parameter 0", sum(1 for s in w.eff.summaries.values() if any(t == ("P", 0, 0) for t, *_ in s.mut)), 14)
+    ctx.floor("shared containers written from API-reachable code (caches, admitted or not)", len(caches) + len({b.name for b in bad}), 3, soft=True)
+    ctx.floor("functions whose summary mutates parameter 0", sum(1 for s in w.eff.summaries.values() if any(t == ("P", 0, 0) for t, *_ in s.mut)), 14, soft=True)
     ctx.analysed["shared_write_groups"] = len(bad) + sum(len(v[1]) for v in caches.values()) + len(counters)
     ctx.analysed["caches"] = [f"{k[0]}::{k[1]}" for k in sorted(caches)]
     return w, caches, counters, bad
